@@ -9,6 +9,10 @@ VK_NOTE = ("trusted: the virtual kernel model (vk/kernel.hpp, vk/ops.hpp; bound 
            "oracle; the programs are the unmodified binaries built from /repo's working tree by its own Makefile")
 DAEMON_NOTE = VK_NOTE + "; spawners are controller scripts on the daemon's pipes (their own code is covered by C09/C11/C18), time is a virtual clock"
 CHECKS = {
+ "C11": dict(engine="VK", category="exploration", design_ref="4/C11",
+             technique="bounded-exhaustive enumeration of users/assign tables compiled by the real qmail-newu x local parts through the real qmail-lspawn/spawn.c/qmail-getpw under the virtual kernel (virtual passwd, home ownership), identity observed at the exec of bin/qmail-local and compared with a reference lookup; cdb truncated at every length; every single failing call",
+             text="The longest-match rules and the drop-privileges order matter only on overlapping tables and hostile local parts; every table of the bounded pool and every local part of the pool is run through the real programs and the credentials and argument vector at the exec are compared with the documented rules.",
+             note=VK_NOTE),
  "C12": dict(engine="VK", category="fault_enumeration", design_ref="4/C12",
              technique="stateless exhaustive exploration of the real qmail-local (parent and maildir child) under the virtual kernel: message/sender grid x every crash point (kill, machine crash with all keep/lose patterns) x every failing call; mbox results read back with a reference mboxrd reader; 2-3 concurrent mbox deliveries under every interleaving within the preemption bound with an injected write failure",
              text="Atomicity is a statement about every crash instant of the tmp/->new/ protocol and >From quoting must be invertible for every message; every crash point, every failing call and every message of the bounded grammar is executed on the real binary, and concurrent deliveries are interleaved exhaustively within the bound.",
